@@ -290,7 +290,7 @@ Definition ctor (pv : bool) (c : cls) (sok : bool) (ps : list (param F)) : res d
       do check (is_num lo) EType ;;
       do check (is_num hi) EType ;;
       do check (pos_ok pv sigma) EValue ;;
-      do check (negb (p_le hi lo)) EValue ;;
+      do check (lt_ok pv lo hi) EValue ;;
       let m := p_float mu in let s := p_float sigma in
       cplo <-- cum_prob_nt m s (p_float lo) ;;
       cphi <-- cum_prob_nt m s (p_float hi) ;;
